@@ -26,6 +26,12 @@ class P:
     def pos(self):
         return self.a > 0
 
+    def key(self):
+        return "k"
+
+    def plus(self, k, j=0):
+        return self.a + k + j
+
     def __repr__(self):
         return f"{type(self).__name__}<{self.name}:a={self.a},b={self.b}>"
 
